@@ -4,15 +4,43 @@
   The theorems are about `Frames.snapshot` (Model/Frames.lean): the composition, as in
   `SnapshotActionContext._process_action`, of
     * `Extracted.Frames.*` — regenerated from the Python source on every run: `should_collect_vars`, the
-      `StackFrame(...)` construction of `_process_frame`, the class-name rule, `parse_short_name` / `is_app_frame`,
-      `LocationAction.tracepoint`, `build_snapshot_action`, `TracePointConfig` getters, the frame the watches are
-      evaluated in, where the `collect` walk starts;
+      `StackFrame(...)` construction of `_process_frame`, the (guarded) class-name rule, `parse_short_name` /
+      `is_app_frame`, `LocationAction.tracepoint`, `build_snapshot_action`, `TracePointConfig` getters, the frame the
+      watches are evaluated in, where the `collect` walk starts;
     * `Collector.*` (the work-list model of the collector, whose decisions are `Extracted.Collector.*`).
-  `Frames.Spec` is the statement, written without reference to the code.
+
+  What is modelled: a snapshot action on a `line` or `call` event with no `log_msg` configured.  NOT modelled here:
+  the log-message variant (its expressions add LOG watch results — C16) and the `return` / `exception` capture
+  variants (one more CAPTURE result — C05–C07 model the collection of the captured value).
+
+  `Frames.Spec` is the reference the theorems compare with.  It is NOT independent of the code everywhere:
+    * from the statement: frames in stack order with file / function / line / class of `self`; frame_type
+      (`collects`); element count for `dict` / `list` / `tuple` / `set` / `frozenset`, text otherwise; children of
+      containers (items by key, elements by index) and of objects (attributes by name), exception args; truncation;
+      the echo keeps id / path / line / watches / arguments;
+    * the code's conventions, adopted as they are and named as such in `Spec`: which type names count as scalars
+      (`Spec.isScalar` = the code's NO_CHILD_TYPES, incl. the Python 2 names and `traceback`), the list-iterator
+      text, "container" = exactly `dict` or a type *named* list/tuple/set/frozenset (a dict or list subclass is an
+      ordinary object: `c02_dict_subclass_rendering`), a container whose `len` fails is rendered by `str`
+      (`c02_len_failure_rendering`), no children when an object cannot be inspected, the depth rule
+      `depth + 1 < maxDepth` (`Spec.kidsAt`), de-mangling by the prefix `_<type name>` (`Spec.attrKid`), modifiers from
+      leading underscores (`Spec.modifiers`, textually the extracted `varModifiers`), "app frame / short path" as
+      prefix tests (`Spec.appFrame`), "class of self" = the class the object reports (`__class__`).
+  So `c02_entry_faithful` / `c02_children_prefix` / `c02_complete` say: the collector, for every heap, produces what
+  this description says — a refinement to a readable description, checked against the real code by the
+  correspondence run and against an oracle written from the statement in harness/props/c02.py.
+
+  Runtime facts no theorem here is about (read, not modelled): "in the thread that reached it" and "at the instant the
+  line was reached" — the model takes the stack and heap of that instant as its input; that the agent reads them on
+  the reaching thread at that instant is exercised by the recorder comparison (incl. the forced two-thread stream).
 
   Quantifiers: every heap (cyclic, shared, raising objects), every stack, every action config / tracepoint args,
   every app config, every limits — no bounds.  `c02_top_vars_exact` / `c02_complete` additionally assume `NoCut0`
   (the search of the paused frame's locals ran to its end), a decidable predicate on (heap, limits, locals).
+
+  Tripwires (facts about regenerated constants / definitional unfoldings, proved by `decide` / `rfl`; they break when
+  the source changes, they carry no ∀ of their own): `c02_walk_starts_at_top`, `c02_variable_sources`,
+  `c02_modifiers`, `c02_watch_inputs`, the first two conjuncts of `c02_watches_same_frame`.
 -/
 import DeepModel.Proofs.Frames
 import DeepModel.Proofs.FramesExact
@@ -29,7 +57,7 @@ theorem c02_frames (H : Heap) (app : AppCfg) (stack : Stack) (vars : List (List 
     (walk H app stack vars).map Spec.viewOf = stack.map (Spec.frameView H app) := by
   rw [walk, visited_eq]; exact walkFrom_views H app stack vars
 
-/-- the walk starts at the paused frame itself -/
+/-- tripwire: the walk starts at the paused frame itself -/
 theorem c02_walk_starts_at_top : walkSkip = 0 := by decide
 
 /-- frame `i` carries exactly what the collector produced for frame `i` (nothing when it produced nothing) -/
@@ -306,9 +334,11 @@ theorem c02_children_prefix (H : Heap) (id path : String) (line : Int) (config :
   rw [← (childNodes_spec _ _ _ _ _ h1').1, ← h2]
   simp [pending]
 
+/-- tripwire: `Spec.modifiers` is the extracted `var_modifiers` (private for `__x`, protected for `_x`); the statement
+    does not speak about modifiers, so this only pins the convention -/
 theorem c02_modifiers (n : Node) (id : Nat) : (mkRef n id).mods = Spec.modifiers n.name := rfl
 
-/-- what goes into a `Variable` / `VariableId` in `process_variable`, and that the getters the snapshot is read
+/-- tripwire: what goes into a `Variable` / `VariableId` in `process_variable`, and that the getters the snapshot is read
     through return those constructor arguments (checked against the source text on every run) -/
 theorem c02_variable_sources :
     variableTypeSource = "type(node.value)" ∧
@@ -326,6 +356,23 @@ theorem c02_variable_sources :
     stackFrameGetters = [("file_name", "file_name"), ("short_path", "short_path"), ("method_name", "method_name"),
       ("line_number", "line_number"), ("variables", "variables"), ("class_name", "class_name"),
       ("app_frame", "app_frame")] := by decide
+
+/-- convention of the code, not of the statement: only an exact `dict` and types *named* list / tuple / set /
+    frozenset are rendered as an element count; any other object — a `dict` or `list` subclass included — is
+    rendered by `str` -/
+theorem c02_dict_subclass_rendering (o : PyObj) (h1 : o.isDictExact = false) (h2 : Spec.isSeq o = false)
+    (h3 : Spec.isIterator o = false) : Spec.render o = o.str.getD o.placeholder := by
+  simp [Spec.render, Spec.isContainer, h1, h2, h3]
+
+/-- convention of the code: a container whose `len` raises is rendered by `str` -/
+theorem c02_len_failure_rendering (o : PyObj) (m : String) (h1 : Spec.isContainer o = true)
+    (h3 : Spec.isIterator o = false) (hl : o.len = .raises m) : Spec.render o = o.str.getD o.placeholder := by
+  simp [Spec.render, h1, h3, hl]
+
+/-- the statement's case: a container whose element count can be taken shows that count -/
+theorem c02_container_rendering (o : PyObj) (n : Nat) (h1 : Spec.isContainer o = true)
+    (h3 : Spec.isIterator o = false) (hl : o.len = .ok n) : Spec.render o = "Size: " ++ toString n := by
+  simp [Spec.render, h1, h3, hl]
 
 /-! ### the paused frame's locals, when the search runs to its end -/
 
@@ -528,8 +575,11 @@ theorem c02_reachable_described (H : Heap) (L : Limits) (t : List Entry) (root :
 
 /-! ### watches -/
 
-/-- **watches, same frame** — the expressions are evaluated in the paused frame: its own locals and its own
-    globals (`f_back` steps = 0), so a snapshot depends on the eval oracle only through frame 0. -/
+/-- **watches, same frame** — the content is the first two conjuncts (tripwires on regenerated constants): the
+    expression is evaluated with the locals AND the globals of the paused frame itself (`f_back` steps = 0; `some 0`
+    = the globals are those of a frame at all).  The third conjunct is congruence — `snapshot` reads the eval
+    oracle at `evalLocalsHops` only — stated so that "depends on frame 0 only" is on record for the model the
+    correspondence run executes (the harness hands it the values of each expression in frames 0 and 1). -/
 theorem c02_watches_same_frame :
     evalLocalsHops = 0 ∧ evalGlobalsHops = some 0 ∧
     ∀ (H : Heap) (id path : String) (line : Int) (config : Cfg) (app : AppCfg) (timeUp : Nat → Bool)
@@ -544,8 +594,8 @@ theorem c02_watches_same_frame :
     rw [hev w]
   simp only [snapshot, actionIn, this]
 
-/-- the values collected for the watches are the objects the expressions evaluate to in frame 0, in the configured
-    order -/
+/-- tripwire: restates `watchIns` with `evalLocalsHops` unfolded: one watch input per configured expression, in the
+    configured order, its value the object the expression evaluates to in frame 0 -/
 theorem c02_watch_inputs (config : Cfg) (ev : EvalOracle) :
     watchIns config ev = (watchesOf config).map (fun w => ⟨.watch, w, ev 0 w⟩) := by
   simp [watchIns, evalLocalsHops]
@@ -575,5 +625,23 @@ example : NoCut0 exHeap exLimits 0 := by decide
 set_option maxRecDepth 8000 in
 example : ((search0 exHeap exLimits 0).table.map (fun e => (e.vid, e.ty, e.value))) =
     [(1, "dict", "Size: 2"), (2, "int", "5"), (3, "list", "Size: 2"), (4, "str", "hi")] := by decide
+
+/-- a whole snapshot of that heap: frame `f` at /app/x.py:3 (no `self`), app root /app, watch `a` evaluating to the
+    int local: the collection succeeds, the frame is described per the statement, its variables are the two locals,
+    the locals pseudo-entry is gone from the table, the watch refers to the entry of the local it names -/
+def exConfig : Cfg := [("watches", .strs ["a"]), ("frame_type", .text "single_frame"), ("MAX_VARIABLES", .num 10)]
+
+def exStack : Stack := [⟨"/app/x.py", "f", 3, 0, []⟩, ⟨"/lib/y.py", "run", 9, 9, [("self", some "Runner")]⟩]
+
+set_option maxRecDepth 8000 in
+example :
+    (match snapshot exHeap "tp" "x.py" 3 exConfig ⟨"/app", [], []⟩ (fun _ => false) exStack (fun _ _ => 1) with
+     | .ok s => some (s.frames.map Spec.viewOf, s.frames.map (fun f => f.variables.map (·.name)),
+                      s.table.map (·.vid), s.watches.map (fun w => (w.expr, w.vid, w.error)),
+                      s.tracepoint.get_args.map (·.1))
+     | .error _ => none) =
+    some ([⟨"/app/x.py", "/x.py", "f", 3, none, true⟩, ⟨"/lib/y.py", "/lib/y.py", "run", 9, some "Runner", false⟩],
+          [["a", "xs"], []], [2, 3, 4], [("a", some 2, none)], ["frame_type", "MAX_VARIABLES"]) := by
+  decide
 
 end C02
